@@ -38,7 +38,7 @@ TIERS = {
                      graphs=300, gnodes=30, queries=60, workers=16),
 }
 INVS = ["RefinesPathSearch", "RefinesExpansionOrder", "RefinesExamined", "RefinesFilter",
-        "RefinesCycle", "RefinesOrder", "RefinesDirection"]
+        "RefinesCycle", "RefinesOrder", "RefinesDirection", "RefinesFunctional"]
 BASE = {"bfs": "C04", "dfs": "C05", "pfsmin": "C06", "pfsmax": "C06"}
 REACH_REASONS = {"missed-reachable-target", "result-for-unreachable-target", "missed-cycle",
                  "cycle-reported-but-none-exists", "not-a-dfs-preorder", "not-a-dfs-postorder", "bad-tree-edges"}
